@@ -440,6 +440,82 @@ def rule_lcs(ck, facts):
     ck.require(R, kinds_seen >= {"Common", "Insert", "Delete"}, "backtrack|kinds", "backtrack does not produce all of Common/Insert/Delete (%s)" % sorted(kinds_seen))
 
 
+def rule_score_dominance(ck, facts):
+    """an unchanged subtree outweighs every pairing with a node that merely contains (or shares) some of its cells"""
+    from ..rules import cover as _cover
+
+    R = "C08.lcs"
+    fs = fns(facts)
+    planners = [f for f in fs if f.kind == "fn" and any(st[KIND] == "a" and st[5][0] == "agg" and st[5][1][0] == "adt" and st[5][1][1].endswith("CopyFromPatch") for _, st in f.all_stmts()) and any((callee(t) or "") == f.path for g in facts.family(ST, f.root) for _, t in g.calls())]
+    ck.require(R, len(planners) == 1, "anchor|planner", "the recursive function that builds the copy patches was not found")
+    if len(planners) != 1:
+        return
+    f = planners[0]
+    sx = SymEx(f, max_paths=400, max_steps=40000, facts=facts)
+    try:
+        paths = sx.run(0)
+    except PathLimit:
+        paths = sx.paths
+    rets = [p.env.get(0) for p in paths if p.end == "return"]
+    exact = [r for r in rets if r and r[0] == "agg" and len(r[2]) == 2 and "CopyFromPatch" in repr(r[2][0])]
+    empty = [r for r in rets if r and r[0] == "agg" and len(r[2]) == 2 and "CopyFromPatch" not in repr(r[2][0])]
+    ck.require(R, bool(exact) and bool(empty), "anchor|planner-returns", "%s: the (patches, weight) results of the exact-match and the nothing-carried paths were not found" % f.short)
+    if not (exact and empty):
+        return
+    # (a) nothing carried weighs nothing: the pairing of two calls starts from 0 and only adds what matched children
+    # carry, so it never reaches the weight of an exact match of either node
+    nz = [r for r in empty if r[2][1] != ("k", 0, "usize")]
+    if nz:
+        ck.bad(R, "score|base-weight", "%s: a pairing in which no child was matched is given the weight %s instead of 0: a call whose children are all found inside a larger sibling then weighs as much as the call matched with its unchanged self, the tie goes to the sibling, and the unchanged call loses its words" % (f.short, show(nz[0][2][1])[:60]), f.where())
+    else:
+        ck.ok(R, "score|base-weight", {"paths": len(empty)})
+    # (b) the exact match weighs the whole subtree, root included
+    w = exact[0][2][1]
+    counter = None
+    if w[0] == "call":
+        counter = facts.fn(w[1])
+    if counter is None:
+        ck.bad(R, "score|exact-weight", "%s: the weight of an exact match is %s, not a count over the matched subtree" % (f.short, show(w)[:80]), f.where())
+        return
+    adt = None
+    for pth, a in facts.crate("state_tree").adts.items():
+        if pth.endswith("StateTreeSkeleton"):
+            adt = pth
+    cov = _cover.coverage(facts, counter, adt) if adt else None
+    ck.require(R, cov is not None, "anchor|counter", "%s does not dispatch on the layout node kinds" % counter.short)
+    if cov is None:
+        return
+    bad = None
+    n_arm = 0
+    for v in sorted(x["n"] for x in facts.adt(adt)["variants"]):
+        tb = cov.arm_target(v) if v in cov.primary_handled() else cov.primary.otherwise
+        if tb is None:
+            continue
+        sc = SymEx(counter, payload_place=cov.primary.place, max_paths=32, facts=facts)
+        try:
+            ps = sc.run(tb)
+        except PathLimit:
+            ps = sc.paths
+        for q in ps:
+            if q.end != "return":
+                continue
+            n_arm += 1
+            r0 = q.env.get(0)
+            txt = repr(r0)
+            recursive = "sum" in txt or counter.path in txt
+            if recursive:
+                # 1 + sum(children)
+                if not ("('k', 1, 'usize')" in txt and "add" in txt):
+                    bad = (v, show(r0)[:80])
+            else:
+                if not (r0[0] == "k" and isinstance(r0[1], int) and r0[1] >= 1):
+                    bad = (v, show(r0)[:80])
+    if bad:
+        ck.bad(R, "score|exact-weight", "%s counts a %s node as %s: a call must count itself in addition to its children (and a cell at least 1), otherwise an unchanged call weighs exactly as much as a larger sibling that contains all of its cells, the tie is broken towards the sibling, and the unchanged call restarts from zero" % (counter.short, bad[0], bad[1]), counter.where())
+    else:
+        ck.ok(R, "score|exact-weight", {"counter": counter.short, "arms": n_arm})
+
+
 def rule_apply(ck, facts):
     R = "C08.apply"
     ck.rule(R, "the destination handed to apply_patches is a fresh zero-filled vector of plan.total_size with no write in between; apply_patches copies [src,src+size) to [dst,dst+size) of equal length; identical layouts return None before take_diff; no unsafe access")
@@ -501,6 +577,27 @@ def rule_apply(ck, facts):
             ck.bad(R, "copy-shape|apply_patches", "apply_patches copies %s <- %s (expected new[dst_addr..dst_addr+size] <- old[src_addr..src_addr+size])" % shape, f.where())
         else:
             ck.bad(R, "copy-shape|apply_patches", "no copy_from_slice found in apply_patches", f.where())
+    # every patch of the plan is applied
+    from ..cfg import natural_loops, reachable as _reach
+
+    SKIPPERS = ("take_while", "take", "skip", "skip_while", "step_by", "filter", "filter_map", "map_while", "nth", "find", "position", "any", "all", "first", "last", "split_first", "split_last", "get", "chunks", "windows")
+    for f in ap:
+        fam = facts.family(f.crate if hasattr(f, "crate") else "state_tree", f.root)
+        used = sorted({(callee(t) or "").split("::")[-1] for g in fam for _, t in g.calls()} & set(SKIPPERS))
+        loops = natural_loops(f)
+        silent = False
+        for hdr, body in loops:
+            copies = {b for b in body if f.term(b)[KIND] == "call" and (callee(f.term(b)) or "").endswith("::copy_from_slice")}
+            if not copies:
+                continue
+            # from the header, around the loop and back to the header without copying
+            for s0 in f.succs(hdr):
+                if s0 in body and hdr in _reach(f, s0, avoid=copies | (set(range(len(f.bb))) - set(body))):
+                    silent = True
+        if used or silent or not loops:
+            ck.bad(R, "every-patch|apply_patches", "apply_patches does not apply every patch of the plan (%s): a patch that is skipped, or everything after the point where the iteration stops, leaves surviving words zero in the new storage" % ("the patch list goes through `%s`" % "`, `".join(used) if used else "an iteration can end without copying"), f.where())
+        else:
+            ck.ok(R, "every-patch|apply_patches", {"loops": len(loops)})
     # identical layouts => None before diffing
     planners = [f for f in fs for _, t in f.calls() if (callee(t) or "").endswith("tree_diff::take_diff")]
     ck.floor(R, "plan_builders", len(planners), 1)
@@ -815,6 +912,7 @@ def run(ck, facts, tier):
     rule_patch_sites(ck, facts)
     rule_predicate(ck, facts)
     rule_lcs(ck, facts)
+    rule_score_dominance(ck, facts)
     rule_apply(ck, facts)
     rule_addressing(ck, facts)
     rule_fast_path(ck, facts)
